@@ -63,7 +63,7 @@ def gen_scenario(rng, profile: dict) -> dict:
     for i in range(ncalls):
         c = {"base": 10 ** (i % 5) * (1 + i // 5) + i}
         if rng.random() < profile.get("fail", 0.0):
-            c["fail"] = rng.choice(["value", "user", "json", "base"])
+            c["fail"] = rng.choice(["value", "user", "json", "base", "stop"])
         if rng.random() < profile.get("gate_p", 0.35):
             c["gate"] = len(gates)
             gates.append(len(gates))
@@ -298,7 +298,7 @@ def judge(model, scen: dict, out: dict) -> dict:
                 else:
                     src = scen["calls"][e[1]]
                     want = {"value": ("ValueError", repr(("boom", e[1]))), "user": ("UserError", repr(("boom", e[1]))),
-                            "json": ("JSONDecodeError", None), "base": ("StopWork", repr(("boom", e[1])))}[src["fail"]]
+                            "json": ("JSONDecodeError", None), "base": ("StopWork", repr(("boom", e[1]))), "stop": ("StopIteration", repr(("boom", e[1])))}[src["fail"]]
                     cancelled_dep = any(results.get(str(j), {}).get("state") == "cancelled" for j in deps_of(scen["calls"][i]))
                     if r["exc"] != want[0] and not (cancelled_dep and r["exc"] == "CancelledError"):
                         oracles.append({"oracle": "exception_class", "i": i, "got": r, "expected": want})
@@ -316,7 +316,7 @@ def judge(model, scen: dict, out: dict) -> dict:
         # ---- after shutdown(wait=True): all done, no processes (C02/C12); shutdown raised only a call's exception (C05)
         for cmd in obs.get("cmds", []):
             if cmd["c"] == "shutdown":
-                if cmd.get("raised") and cmd["raised"] not in ("ValueError", "UserError", "JSONDecodeError", "StopWork"):
+                if cmd.get("raised") and cmd["raised"] not in ("ValueError", "UserError", "JSONDecodeError", "StopWork", "StopIteration"):
                     oracles.append({"oracle": "shutdown_raised", "exc": cmd["raised"]})
             if cmd.get("harness_exc"):
                 raise InfraError("runner command failed: " + cmd["harness_exc"])
@@ -352,6 +352,7 @@ def judge(model, scen: dict, out: dict) -> dict:
             if st:
                 intervals.append((i, pid, n, st[-1][2], t))
     info["executed"] = sorted(enters)
+    info["final_states"] = {k: v.get("state") for k, v in results.items()}
     # dependency order (C03): every input's function body ended before the dependent's began
     for (i, pid, n, a, b) in intervals:
         for j in deps_of(scen["calls"][i]):
